@@ -97,6 +97,17 @@ func main() {
 	for i := 0; i < 4*cfg.Mult; i++ {
 		lics = append(lics, license.NewV1(), license.NewV2(), license.NewV3())
 	}
+	// licences whose contract, signature and master index sit at the boundaries of the variable-length
+	// integers of their encoding (the text form then ends in every base64 character)
+	for _, idx := range []uint32{0, 1, 2, 54, 55, 63, 64, 118, 127, 128, 255, 256, 300, 16383, 16384} {
+		for _, us := range [][2]uint32{{1, 1}, {1<<14 + 3, 1<<21 + 5}, {1<<21 - 1, 1<<28 - 1}, {1<<28 + 1, 1<<28 + 7}, {1 << 31, 1<<32 - 1}} {
+			v2 := license.NewV2()
+			v2.User, v2.Sign, v2.Index = us[0], us[1], idx
+			v3 := license.NewV3()
+			v3.User, v3.Sign, v3.Index = us[0], us[1], idx
+			lics = append(lics, v2, v3)
+		}
+	}
 	// 1. licences round trip
 	for _, l := range lics {
 		s := l.String()
